@@ -17,9 +17,13 @@ from .core import Relation, err_kind
 
 PROP = "C18"
 CLAIMED = False
-COQ_MODULES = ["C18_Check", "C18_Proofs"]
+COQ_MODULES = ["C18_Check", "C18_Proofs", "C18_ProofsCheck"]
 PROPERTY_MODULE = "C18_Property"
-ALLOWED_AXIOMS = []
+# Coq's primitive binary64 type and operations are printed by Print Assumptions under "Axioms:" for the two
+# checker-soundness theorems (the checker compares floats); they are kernel primitives, not axioms of this development
+ALLOWED_AXIOMS = ["PrimFloat.float", "PrimFloat.leb", "PrimFloat.eqb", "PrimFloat.add", "PrimFloat.abs",
+                  "PrimFloat.is_nan", "PrimFloat.is_infinity", "PrimFloat.ltb", "PrimFloat.sub", "PrimFloat.mul",
+                  "PrimFloat.of_uint63", "Uint63.int", "PrimInt63.int"]
 RULE = (
     "generated .bp files: 1-4 samples, the drawn sample first / in the middle / last / absent, names with "
     "underscores, 1-5 chromosomes incl. X, Y and chr-prefixed names, 1-5 blocks per chromosome, the last chromosome "
@@ -94,14 +98,14 @@ def fmt_cm(x):
     return f"{x:.6f}".rstrip("0").rstrip(".") if x != int(x) else str(float(x))
 
 
-def gen_strand(rng, chroms):
+def gen_strand(rng, chroms, small=False):
     out = []
     for c in chroms:
-        k = int(rng.integers(1, 6))
+        k = int(rng.integers(1, 3 if small else 6))
         cm = 0.0
         for _ in range(k):
             cm = round(cm + float(rng.choice([0.25, 1.5, 20.003442, 87.107755, 0.000101])), 6)
-            out.append([str(rng.choice(POPS)), c, str(int(rng.integers(1, 2**31 - 1))), fmt_cm(cm)])
+            out.append([str(rng.choice(POPS)), c, str(int(rng.integers(1, 9999))), fmt_cm(cm)])
     return out
 
 
@@ -110,18 +114,6 @@ def gen_file(rng, malformed=False):
     n = int(rng.integers(1, 5))
     names = [NAMES[i] for i in rng.choice(len(NAMES), size=n, replace=False)]
     cset = CHROM_SETS[int(rng.integers(0, len(CHROM_SETS)))]
-    lines = []
-    for nm in names:
-        k = int(rng.integers(1, len(cset) + 1))
-        chroms = cset[:k] if rng.random() < 0.7 else sorted(rng.choice(cset, size=k, replace=False).tolist(), key=cset.index)
-        for t in (1, 2):
-            lines.append([f"{nm}_{t}"])
-            st = gen_strand(rng, chroms)
-            if rng.random() < 0.25:  # last chromosome with exactly one block
-                last = st[-1][1]
-                first = next(i for i, b in enumerate(st) if b[1] == last)
-                st = st[:first + 1]
-            lines += st
     r = rng.random()
     if r < 0.3:
         name = names[0]
@@ -130,7 +122,20 @@ def gen_file(rng, malformed=False):
     elif r < 0.9:
         name = names[len(names) // 2]
     else:
-        name = str(rng.choice(["absent", "Sample", "Sample_1_1", ""]))
+        name = str(rng.choice(["absent", "Sample", "Sample_1_1", "_"]))
+    lines = []
+    for nm in names:
+        small = nm != name and rng.random() < 0.8   # the other samples are kept short (literal size)
+        k = int(rng.integers(1, (2 if small else len(cset)) + 1))
+        chroms = cset[:k] if rng.random() < 0.7 else sorted(rng.choice(cset, size=k, replace=False).tolist(), key=cset.index)
+        for t in (1, 2):
+            lines.append([f"{nm}_{t}"])
+            st = gen_strand(rng, chroms, small=small)
+            if rng.random() < 0.25:  # last chromosome with exactly one block
+                last = st[-1][1]
+                first = next(i for i, b in enumerate(st) if b[1] == last)
+                st = st[:first + 1]
+            lines += st
     cen = None
     if rng.random() < 0.55:
         allc = ["1", "2", "3", "5", "7", "10", "21", "22", "X", "Y"]
@@ -298,7 +303,7 @@ class Blocks(Relation):
     coq_case_type = "bcase"
     coq_model = "model_blocks"
     coq_imports = ["BpText", "C18_Model"]
-    budget = {"quick": 1200, "thorough": 20000}
+    budget = {"quick": 900, "thorough": 8000}
     max_cases_per_shard = 50
     anchors = [("haptools/karyogram.py", "GetHaplotypeBlocks"), ("haptools/karyogram.py", "GetChrom")]
 
@@ -384,7 +389,7 @@ class Plot(Relation):
     coq_case_type = "pcase"
     coq_model = "model_plot"
     coq_imports = ["BpText", "C18_Model"]
-    budget = {"quick": 60, "thorough": 1500}
+    budget = {"quick": 60, "thorough": 600}
     max_cases_per_shard = 20
     timeout_per_case = 180
     anchors = [("haptools/karyogram.py", "PlotKaryogram"), ("haptools/karyogram.py", "PlotHaplotypeBlock"),
